@@ -111,10 +111,11 @@ type histRun struct {
 	dir    string
 	passes []string // every password this history may have configured
 	probes int
+	prot   string // Opts.Protected
 }
 
 func (h *histRun) start() error {
-	n, err := startNode("prot-history", t38.Opts{Dir: h.dir, Protected: "yes"})
+	n, err := startNode("prot-history", t38.Opts{Dir: h.dir, Protected: h.prot})
 	if err != nil {
 		return err
 	}
@@ -239,7 +240,7 @@ func (h *histRun) probe(where string) (key, what string, err error) {
 
 // runHistory executes one plan. A harness problem is returned as err.
 func runHistory(c *ev.Collector, plan *histPlan) (key, what string, err error) {
-	h := &histRun{c: c, dir: t38.NewDir("c15-prothist"), passes: append([]string{"cnrpw-h0"}, histPasswords...)}
+	h := &histRun{c: c, prot: "yes", dir: t38.NewDir("c15-prothist"), passes: append([]string{"cnrpw-h0"}, histPasswords...)}
 	cfg := map[string]any{}
 	if plan.FilePass != "" {
 		cfg["requirepass"] = plan.FilePass
